@@ -268,7 +268,7 @@ func (w *World) Verify(c *Contract) (res *TargetResult) {
 				} else if fn.Signature.Results().Len() == 1 {
 					res = []Val{r.val}
 				}
-				t := x.evalClause(f, e, r.heap, entry, args, res, nil)
+				t := x.evalClauseAt(r.reach, f, e, r.heap, entry, args, res, nil)
 				x.oblige("post", fmt.Sprintf("ensures%d.ret%d", e.N, i), e.Props, and(r.reach, not(t)), fn, r.pos)
 				o := x.lastObl
 				o.Detail, o.Clause, o.Group = e.Text, e, fmt.Sprintf("ensures%d", e.N)
@@ -280,7 +280,7 @@ func (w *World) Verify(c *Contract) (res *TargetResult) {
 			sk = &skolem{}
 			x.skolemNext = sk
 		}
-		t := x.evalClause(f, e, final, entry, args, results, nil)
+		t := x.evalClauseAt(retReach, f, e, final, entry, args, results, nil)
 		x.skolemNext = nil
 		if sk == nil {
 			x.oblige("post", fmt.Sprintf("ensures%d", e.N), e.Props, and(retReach, not(t)), fn, token.NoPos)
